@@ -827,6 +827,9 @@ func runBehaviour(idx int, beh behaviour, opt options) ([]*caseRec, *behRec) {
 		r.Mlog = append(r.Mlog, o.mlog...)
 		r.Dials = o.dials
 		r.Handled = o.handled
+		if beh.Ov != nil && beh.Ov.EmptyKeys {
+			r.NKeys = 0
+		}
 		r.Tcl, r.Crst, r.WCPL, r.AfterClose = cc.tcl, cc.crst, cc.wcpl, cc.afterClose
 		r.Cancelled = cc.cancelled
 		r.DialAddrs = append(r.DialAddrs, o.dialAddrs...)
